@@ -3,10 +3,16 @@
 package dnsforward
 
 import (
+	"crypto/ecdsa"
+	"crypto/elliptic"
+	crand "crypto/rand"
 	"crypto/tls"
+	"crypto/x509"
+	"crypto/x509/pkix"
 	"encoding/binary"
 	"errors"
 	"fmt"
+	"math/big"
 	"math/rand"
 	"net"
 	"net/http"
@@ -15,6 +21,7 @@ import (
 	"sort"
 	"strings"
 	"testing"
+	"time"
 
 	"github.com/AdguardTeam/AdGuardHome/internal/filtering"
 	"github.com/AdguardTeam/AdGuardHome/internal/verifkit"
@@ -971,15 +978,57 @@ func c16Gen(rng *rand.Rand) (c *c16Case) {
 // ---------------------------------------------------------------------------
 // The monitor.
 
-func c16NewServer(t *testing.T) (s *Server) {
+// c16WideCert makes a self-signed certificate whose names cover more than any
+// one configured server name: wildcards and several unrelated names.
+func c16WideCert() (cert *tls.Certificate, err error) {
+	key, err := ecdsa.GenerateKey(elliptic.P256(), crand.Reader)
+	if err != nil {
+		return nil, err
+	}
+	tmpl := &x509.Certificate{
+		SerialNumber:          big.NewInt(16),
+		Subject:               pkix.Name{CommonName: "example.org"},
+		NotBefore:             time.Now().Add(-time.Hour),
+		NotAfter:              time.Now().Add(30 * 24 * time.Hour),
+		KeyUsage:              x509.KeyUsageDigitalSignature | x509.KeyUsageCertSign,
+		ExtKeyUsage:           []x509.ExtKeyUsage{x509.ExtKeyUsageServerAuth},
+		BasicConstraintsValid: true,
+		IsCA:                  true,
+		DNSNames: []string{"example.org", "*.example.org", "*.sub.example.org", "*.org", "other.test", "*.other.test",
+			"*.example.co.uk", tlsServerName, "*." + tlsServerName},
+	}
+	der, err := x509.CreateCertificate(crand.Reader, tmpl, tmpl, &key.PublicKey, key)
+	if err != nil {
+		return nil, err
+	}
+
+	return &tls.Certificate{Certificate: [][]byte{der}, PrivateKey: key}, nil
+}
+
+// c16NewServer returns a really prepared server: TLS is prepared with a
+// certificate and a DoT listen address (nothing is bound before Start), once
+// with the strict check on and once with it off, so that everything
+// prepareTLS derives from the certificate is in place the way it is in a
+// running server with that setting.
+func c16NewServer(t *testing.T, strict bool) (s *Server) {
 	t.Helper()
+
+	cert, err := c16WideCert()
+	if err != nil {
+		t.Fatal(err)
+	}
 
 	return createTestServer(t, &filtering.Config{
 		BlockingMode: filtering.BlockingModeDefault,
 	}, ServerConfig{
 		UDPListenAddrs: []*net.UDPAddr{{}},
 		TCPListenAddrs: []*net.TCPAddr{{}},
-		TLSConf:        &TLSConfig{},
+		TLSConf: &TLSConfig{
+			Cert:           cert,
+			TLSListenAddrs: []*net.TCPAddr{{IP: net.IP{127, 0, 0, 1}, Port: verifkit.FreePort()}},
+			ServerName:     "example.org",
+			StrictSNICheck: strict,
+		},
 		Config: Config{
 			UpstreamMode:     UpstreamModeLoadBalance,
 			EDNSClientSubnet: &EDNSClientSubnet{Enabled: false},
@@ -991,25 +1040,39 @@ func c16NewServer(t *testing.T) (s *Server) {
 
 // c16Runner evaluates cases against one server.
 type c16Runner struct {
-	rep   *verifkit.Report
-	s     *Server
-	reqID uint64
+	rep *verifkit.Report
+	// s is the server of the current case: strictS for cases with the strict
+	// check, plainS for the others (each prepared with that setting).
+	s       *Server
+	strictS *Server
+	plainS  *Server
+	reqID   uint64
+	// observations counts observe calls; every c16AdminEvery-th is followed
+	// by a call of an admin handler that must not touch requests in flight.
+	observations int
+	// cacheClears counts the cache_clear calls per server.
+	cacheClears map[*Server]int
 	// lastBoundaryID is the request id of the last HandleBefore observation.
 	lastBoundaryID uint64
 	// pending are requests whose processing stage has not read the cache yet.
 	pending []c16Pending
-	// stored counts the ClientIDs HandleBefore put into the cache so far.
-	stored int
+	// stored counts the ClientIDs HandleBefore put into each server's cache.
+	stored map[*Server]int
 }
+
+// c16AdminEvery is the period of admin-handler calls in the sweep.
+const c16AdminEvery = 40
 
 // c16Pending is a request between HandleBefore and the processing stage:
 // other requests pass HandleBefore before its ClientID is read from the
 // cache, as happens whenever requests overlap.
 type c16Pending struct {
+	s      *Server
 	reqID  uint64
 	id     string
 	due    int
 	stored int
+	clears int
 	c      *c16Case
 }
 
@@ -1018,9 +1081,10 @@ const c16PendingMax = 6
 
 // defer_ registers the ClientID stored for the request.
 func (r *c16Runner) defer_(c *c16Case, reqID uint64, id string) {
-	r.stored++
-	r.pending = append(r.pending, c16Pending{reqID: reqID, id: id, due: r.stored + 1 + int(reqID%c16PendingMax),
-		stored: r.stored, c: c})
+	r.stored[r.s]++
+	n := r.stored[r.s]
+	r.pending = append(r.pending, c16Pending{s: r.s, reqID: reqID, id: id, due: n + 1 + int(reqID%c16PendingMax),
+		stored: n, clears: r.cacheClears[r.s], c: c})
 }
 
 // readPending performs the processing-stage cache read of the requests that
@@ -1028,32 +1092,64 @@ func (r *c16Runner) defer_(c *c16Case, reqID uint64, id string) {
 func (r *c16Runner) readPending(flush bool) {
 	keep := r.pending[:0]
 	for _, p := range r.pending {
-		if !flush && r.stored < p.due {
+		if !flush && r.stored[p.s] < p.due {
 			keep = append(keep, p)
 
 			continue
 		}
 		var key [8]byte
 		binary.BigEndian.PutUint64(key[:], p.reqID)
-		got := string(r.s.clientIDCache.Get(key[:]))
+		got := string(p.s.clientIDCache.Get(key[:]))
+		others := r.stored[p.s] - p.stored
+		clears := r.cacheClears[p.s] - p.clears
 		r.rep.Event("delayed_cache_reads")
-		if r.stored > p.stored {
+		if others > 0 {
 			r.rep.Event("delayed_cache_reads_after_other_clientids_were_stored")
 		}
+		if clears > 0 {
+			r.rep.Event("delayed_cache_reads_after_cache_clear_call")
+		}
 		if got != p.id {
-			r.rep.Violate("cached-clientid-changed-before-processing",
-				fmt.Sprintf("HandleBefore stored ClientID %q for the request; after %d other requests with a ClientID passed HandleBefore the cache holds %q for it",
-					p.id, r.stored-p.stored, got),
+			key, how := "cached-clientid-changed-before-processing", ""
+			if got == "" && clears > 0 {
+				key = "cached-clientid-lost-before-processing:after-cache_clear"
+				how = fmt.Sprintf(" and %d POST /control/cache_clear", clears)
+			}
+			r.rep.Violate(key,
+				fmt.Sprintf("HandleBefore stored ClientID %q for the request; after %d other requests with a ClientID passed HandleBefore%s the cache holds %q for it",
+					p.id, others, how, got),
 				map[string]any{"case": p.c, "request_id": p.reqID, "stored": p.id, "read_later": got,
-					"clientids_stored_in_between": r.stored - p.stored,
-					"interleaving":                "A.HandleBefore, B.HandleBefore ..., A's processing-stage read of clientIDCache"})
+					"clientids_stored_in_between": others, "cache_clear_calls_in_between": clears,
+					"interleaving": "A.HandleBefore, B.HandleBefore ... (admin handler calls), A's processing-stage read of clientIDCache"})
 		}
 	}
 	r.pending = keep
 }
 
 func (r *c16Runner) configure(c *c16Case) {
-	r.s.conf.TLSConf = &TLSConfig{ServerName: c.Conf, StrictSNICheck: c.Strict}
+	r.s = r.plainS
+	if c.Strict {
+		r.s = r.strictS
+	}
+	conf := *r.s.conf.TLSConf
+	conf.ServerName, conf.StrictSNICheck = c.Conf, c.Strict
+	r.s.conf.TLSConf = &conf
+}
+
+// admin calls, now and then, a registered admin handler that does not rebuild
+// the proxy; requests between HandleBefore and the processing stage (the
+// pending ones) must not notice.
+func (r *c16Runner) admin() {
+	r.observations++
+	if r.observations%c16AdminEvery != 0 {
+		return
+	}
+	kind := c16AdminKinds[1+(r.observations/c16AdminEvery)%(len(c16AdminKinds)-1)]
+	c16AdminCall(r.s, kind, int64(r.observations/c16AdminEvery))
+	r.rep.Event("admin_handler_calls:" + kind)
+	if kind == "cache_clear" {
+		r.cacheClears[r.s]++
+	}
 }
 
 // observe runs the case at both observation points; a panic of the product
@@ -1074,6 +1170,7 @@ func (r *c16Runner) observe(c *c16Case) (b, d c16Obs, ok bool) {
 	if !b.Failed && b.ID != "" {
 		r.defer_(c, r.lastBoundaryID, b.ID)
 	}
+	r.admin()
 	r.readPending(false)
 
 	return b, d, true
@@ -1272,7 +1369,12 @@ func TestVerifC16(t *testing.T) {
 	}()
 	rep.Assume("a crafted proxy.DNSContext with fake TLS/QUIC connection objects and a hand-built http.Request is what the transports deliver (checked on a subset by the calibration part against real listeners)")
 
-	r := &c16Runner{rep: rep, s: c16NewServer(t)}
+	r := &c16Runner{rep: rep, strictS: c16NewServer(t, true), plainS: c16NewServer(t, false),
+		stored: map[*Server]int{}, cacheClears: map[*Server]int{}}
+	r.s = r.plainS
+	if len(r.strictS.dnsNames) == 0 {
+		rep.Inconcl("the server prepared with the strict check has not taken any names from its certificate")
+	}
 
 	fixed := c16Fixed()
 	for _, c := range fixed {
@@ -1303,6 +1405,7 @@ func TestVerifC16(t *testing.T) {
 		"host_header_port_pairs_compared":                       200,
 		"doh_url_parsed_from_request_target":                    500,
 		"delayed_cache_reads_after_other_clientids_were_stored": 2000,
+		"delayed_cache_reads_after_cache_clear_call":            100,
 	}
 	keys := make([]string, 0, len(need))
 	for k := range need {
